@@ -29,10 +29,10 @@ def close(a, b, tol):
 
 
 # ------------------------------------------------------------------------------------------ generation
-def gen_live(rng, n, kind=None):
+def gen_live(rng, n, kind=None, aa=False):
     """(initial case, use_prior, ops).  ops: {"op":"set","param":id,"value":[…]} | {"op":"read","what":…} | {"op":"eval"}"""
     kind = kind or rng.choice(["time", "time", "reparam", "unrooted"])
-    subst = rng.choice(["JC69", "HKY", "GTR", "GeneralSymmetric", "GeneralNonSymmetric"])
+    subst = rng.choice(["LG", "WAG"]) if aa else rng.choice(["JC69", "HKY", "GTR", "GeneralSymmetric", "GeneralNonSymmetric"])
     site = rng.choice(["constant", "invariant", "weibull", "weibull+inv"])
     case = G.gen_case(rng, n, subst=subst, site=site, rooting="unrooted" if kind == "unrooted" else "time",
                       explicit_heights=True, nsites=rng.randint(3, 6))
@@ -142,50 +142,54 @@ def apply_to_case(cur, param, value):
 
 
 # ------------------------------------------------------------------------------------------ execution
-def run_live(case, use_prior, ops, on_fresh=None):
-    """execute a history on the REAL objects. Returns a list of records, one per `eval`:
-    {"step", "impl", "oracle", "fresh", "case"}; an exception of the implementation gives impl=None."""
-    import torch
-    from torchtree.evolution.tree_likelihood import TreeLikelihoodModel
+class LiveRun:
+    """one live TreeLikelihoodModel (+ optional coalescent prior on its tree) executing a history one operation at a time"""
 
-    torch.set_default_dtype(torch.float64)
-    dic = {}
-    out = []
-    try:
-        model = TreeLikelihoodModel.from_json(G.build_spec(case), dic)
-        prior = None
+    def __init__(self, case, use_prior):
+        import torch
+        from torchtree.evolution.tree_likelihood import TreeLikelihoodModel
+
+        torch.set_default_dtype(torch.float64)
+        self.case, self.cur, self.dic, self.prior = case, copy.deepcopy(case), {}, None
+        self.model = TreeLikelihoodModel.from_json(G.build_spec(case), self.dic)
         if use_prior:
             from torchtree.evolution.coalescent import ConstantCoalescentModel
 
-            prior = ConstantCoalescentModel.from_json(
-                {"id": "coalescent", "type": "ConstantCoalescentModel", "theta": G.P("theta", [3.0]), "tree_model": "tree"}, dic)
-    except Exception as e:  # noqa: BLE001
-        return [{"step": -1, "impl": None, "oracle": None, "fresh": None, "case": case, "error": repr(e)[:300]}]
-    cur = copy.deepcopy(case)
-    for step, op in enumerate(ops):
-        err = None
+            self.prior = ConstantCoalescentModel.from_json(
+                {"id": "coalescent", "type": "ConstantCoalescentModel", "theta": G.P("theta", [3.0]), "tree_model": "tree"}, self.dic)
+
+    def step(self, step, op, on_fresh=None):
+        """execute one operation; an `eval` returns a record, anything else None (or a failing record if it raised)"""
+        import torch
+
+        model, cur, err = self.model, self.cur, None
         try:
             if op["op"] == "set":
-                dic[op["param"]].tensor = torch.tensor(op["value"], dtype=torch.float64)
+                self.dic[op["param"]].tensor = torch.tensor(op["value"], dtype=torch.float64)
                 apply_to_case(cur, op["param"], op["value"])
-                continue
+                return None
             if op["op"] == "read":
                 w = op["what"]
                 if w == "node_heights":
                     model.tree_model.node_heights
                 elif w == "branch_lengths":
                     model.tree_model.branch_lengths()
-                elif w == "prior" and prior is not None:
-                    prior()
+                elif w == "prior" and self.prior is not None:
+                    self.prior()
                 elif w == "like":
                     model()
-                continue
+                return None
+            if op["op"] == "touch":  # re-assign an equal tensor: forces a recomputation through the public interface
+                for p in self.dic.values():
+                    if hasattr(p, "tensor") and torch.is_tensor(getattr(p, "tensor", None)) and p.tensor.is_floating_point():
+                        p.tensor = p.tensor.clone()
+                        break
+                return None
             impl = float(model().reshape(-1)[0])
         except Exception as e:  # noqa: BLE001
             impl, err = None, repr(e)[:300]
             if op["op"] != "eval":
-                out.append({"step": step, "impl": None, "oracle": None, "fresh": None, "case": copy.deepcopy(cur), "error": err})
-                return out
+                return {"step": step, "impl": None, "oracle": None, "fresh": None, "case": copy.deepcopy(cur), "error": err, "fatal": True}
         snap = copy.deepcopy(cur)
         try:
             fresh_model = G.build_model(snap)
@@ -197,9 +201,80 @@ def run_live(case, use_prior, ops, on_fresh=None):
         rec = {"step": step, "impl": impl, "oracle": want, "fresh": fresh, "case": snap}
         if err:
             rec["error"] = err
-        out.append(rec)
         if on_fresh is not None:
             on_fresh(snap)
+        return rec
+
+
+def run_live(case, use_prior, ops, on_fresh=None):
+    """execute a history on the REAL objects. Returns a list of records, one per `eval`:
+    {"step", "impl", "oracle", "fresh", "case"}; an exception of the implementation gives impl=None."""
+    try:
+        lr = LiveRun(case, use_prior)
+    except Exception as e:  # noqa: BLE001
+        return [{"step": -1, "impl": None, "oracle": None, "fresh": None, "case": case, "error": repr(e)[:300]}]
+    out = []
+    for step, op in enumerate(ops):
+        rec = lr.step(step, op, on_fresh)
+        if rec is not None:
+            out.append(rec)
+            if rec.get("fatal"):
+                return out
+    return out
+
+
+def gen_interleaved(rng, k=None):
+    """SEVERAL LIVE INSTANCES: k differently configured histories (different taxa counts, topologies, rootings, data types,
+    substitution / site / clock models) and ONE schedule interleaving their operations. All models are built before the first
+    operation runs; every `eval` is followed, for the other instances, by a `touch` so that they recompute too."""
+    k = k or rng.choice([2, 2, 3])
+    hs = []
+    sizes = rng.sample([3, 4, 5], k)
+    for i in range(k):
+        aa = i == 1 and rng.random() < 0.5
+        case, use_prior, ops = gen_live(rng, min(sizes[i], 4) if aa else sizes[i], aa=aa)
+        hs.append({"case": case, "use_prior": use_prior, "ops": ops})
+    # schedule: (instance, op index) round-robin with random run lengths
+    ptr = [0] * k
+    sched = []
+    while any(ptr[i] < len(hs[i]["ops"]) for i in range(k)):
+        i = rng.choice([j for j in range(k) if ptr[j] < len(hs[j]["ops"])])
+        for _ in range(rng.choice([1, 1, 2, 3])):
+            if ptr[i] < len(hs[i]["ops"]):
+                sched.append([i, ptr[i]])
+                ptr[i] += 1
+    return {"histories": hs, "schedule": sched}
+
+
+def run_interleaved(plan):
+    """-> list of records (with "instance"); every instance is built BEFORE any operation runs"""
+    runs, out = [], []
+    for i, h in enumerate(plan["histories"]):
+        try:
+            runs.append(LiveRun(h["case"], h["use_prior"]))
+        except Exception as e:  # noqa: BLE001
+            return [{"instance": i, "step": -1, "impl": None, "oracle": None, "fresh": None, "case": h["case"], "error": repr(e)[:300]}]
+    dead = set()
+    for i, j in plan["schedule"]:
+        if i in dead:
+            continue
+        op = plan["histories"][i]["ops"][j]
+        rec = runs[i].step(j, op)
+        if rec is not None:
+            rec["instance"] = i
+            out.append(rec)
+            if rec.get("fatal"):
+                dead.add(i)
+        if op["op"] == "eval":
+            # another live instance must still give ITS value when it recomputes now
+            others = [o for o in range(len(runs)) if o != i and o not in dead]
+            for o in others[(j % max(1, len(others))):][:1]:
+                if True:
+                    runs[o].step(-1, {"op": "touch"})
+                    rec2 = runs[o].step(-2, {"op": "eval"})
+                    rec2["instance"] = o
+                    rec2["after_eval_of"] = i
+                    out.append(rec2)
     return out
 
 
